@@ -7,6 +7,19 @@ def bool? (o : Op) (k : String) : Option Bool :=
   | some "0" => some false
   | _ => none
 
+def oid? (s : String) : Option Oid :=
+  if s == "-" then some [] else (s.splitOn ".").mapM String.toNat?
+
+def parseCertFact (s : String) : Option CertFact :=
+  match s.splitOn ":" with
+  | [a, b, c] => do
+    let a ← a.toNat?; let b ← b.toNat?; let c ← c.toNat?
+    pure { ok := a == 1, signedResp := b == 1, byIssuer := c == 1 }
+  | _ => none
+
+def parseCertFacts (s : String) : Option (List CertFact) :=
+  if s == "-" then some [] else (s.splitOn ";").mapM parseCertFact
+
 def parseSingle (s : String) : Option Single :=
   match s.splitOn ":" with
   | [serial, good, unknown, crit, hash, this, next, rev, reason, nExt] => do
@@ -14,13 +27,13 @@ def parseSingle (s : String) : Option Single :=
     let good ← good.toNat?
     let unknown ← unknown.toNat?
     let crit ← crit.toNat?
-    let hash ← hash.toNat?
+    let hash ← oid? hash
     let this ← this.toInt?
     let next ← next.toInt?
     let rev ← rev.toInt?
     let reason ← reason.toInt?
     let nExt ← nExt.toNat?
-    pure { serial := serial, good := good == 1, unknown := unknown == 1, crit := crit == 1, hash := hash,
+    pure { serial := serial, good := good == 1, unknown := unknown == 1, crit := crit == 1, hashOid := hash,
            thisUpdate := this, nextUpdate := next, revokedAt := rev, reason := reason, nExt := nExt }
   | _ => none
 
@@ -70,10 +83,16 @@ def handleResp (o : Op) : Option String := do
     outerOk := ← bool? o "f.outerOk", outerRest := ← bool? o "f.outerRest", status := ← o.int? "f.status",
     typeBasic := ← bool? o "f.typeBasic", basicOk := ← bool? o "f.basicOk", basicRest := ← bool? o "f.basicRest",
     producedAt := ← o.int? "f.pa", singles := ← (o.get? "f.singles").bind parseSingles,
-    ridTag := ← o.nat? "f.ridTag", ridOk := ← bool? o "f.ridOk", ncerts := ← o.nat? "f.ncerts",
-    certOk := ← bool? o "f.certOk", sigByEmbedded := ← bool? o "f.sigEmb", embeddedByIssuer := ← bool? o "f.embIss",
-    sigByIssuer := ← bool? o "f.sigIss", sigAlg := ← o.nat? "f.alg" }
-  pure (showRes (parseResponse f cert issuer) true)
+    ridTag := ← o.nat? "f.ridTag", ridOk := ← bool? o "f.ridOk",
+    certs := ← (o.get? "f.certs").bind parseCertFacts,
+    sigByIssuer := ← bool? o "f.sigIss", sigOid := ← (o.get? "f.sigOid").bind oid? }
+  match o.get? "csf" with
+  | some "1" =>
+    -- two-step use: ParseResponseForCert(bytes, cert, nil) then Response.CheckSignatureFrom(issuer)
+    match parseResponse f cert false with
+    | .ok fl => pure (showFields fl true ++ s!" csf={b01 (checkSignatureFrom f)}")
+    | r => pure (showRes r true)
+  | _ => pure (showRes (parseResponse f cert issuer) true)
 
 def handleCr (o : Op) : Option String := do
   let exts ← match o.get? "exts" with
@@ -115,7 +134,7 @@ def handleReq (o : Op) : Option String := do
 def handlePreq (o : Op) : Option String := do
   let f : ReqFacts := {
     ok := ← bool? o "f.ok", rest := ← bool? o "f.rest", hasSig := ← bool? o "f.hasSig", n := ← o.nat? "f.n",
-    hash := ← o.nat? "f.hash", nameHash := ← o.hex? "f.nh", keyHash := ← o.hex? "f.kh", serial := ← o.int? "f.serial" }
+    hashOid := ← (o.get? "f.hashOid").bind oid?, nameHash := ← o.hex? "f.nh", keyHash := ← o.hex? "f.kh", serial := ← o.int? "f.serial" }
   pure (showReq (parseRequest f))
 
 def handle (line : String) : String :=
